@@ -124,17 +124,23 @@ def noGlueGo (f : Fmt) (fl : List Ch) : LS → Bool → List Piece → Bool
                      | d :: _ => sepAfter d
                      | [] => false) &&
       noGlueGo f fl (run f (if afterHole then .idle else st) (s.map LCh.c)).2 false ps
-  | st, _, .hole _ :: ps => sepBefore f fl st && (ps.isEmpty || noGlueGo f fl .idle true ps)
+  | st, _, .hole _ :: ps =>
+      sepBefore f fl st &&
+      (match ps with
+       | [] => true
+       | .lit _ :: _ => noGlueGo f fl .idle true ps
+       | .hole _ :: _ => false)
 
 /-- NoGlue for one template: token boundaries at both sides of every hole, a first character
     that is admissible itself, and an admissible final scanner state -/
+def firstPieceOk (fl : List Ch) : List Piece → Bool
+  | .lit (c :: _) :: _ => firstOk fl c
+  | .hole _ :: _ => true
+  | _ => false
+
 def noGlueTpl (f : Fmt) (fl : List Ch) (sym : FnSym) : Bool :=
   let ps := splitMarkers sym.arity (sym.tplOf f)
-  (match ps with
-   | .lit (c :: _) :: _ => firstOk fl c
-   | .hole _ :: _ => true
-   | _ => false) &&
-  noGlueGo f fl .idle false ps
+  firstPieceOk fl ps && noGlueGo f fl .idle false ps
 
 def allRegular (fns : List FnSym) : Bool :=
   fns.all fun sym => Fmt.all.all fun f => regularTpl f sym
@@ -175,6 +181,14 @@ mutual
     | .nil => true
     | .cons t r => termsT p tms f t && termsF p tms f r
 end
+
+/-- a rendering is non-empty, starts with an admissible character and leaves the scanner in an
+    admissible state -/
+def rendOk (f : Fmt) (fl : List Ch) (s : List Ch) : Bool :=
+  (match s with
+   | c :: _ => firstOk fl c
+   | [] => false) &&
+  endOk (run f .idle (s.map LCh.c)).2
 
 def termOk (f : Fmt) (fl : List Ch) (s : List Ch) : Bool := clean s && termSyn f fl s
 
